@@ -452,6 +452,20 @@ Section Reenc.
   Qed.
 
   (* ---- the theorem ---- *)
+  (* every entry of a map starts with its key's length prefix: at least as many bytes as entries *)
+  Lemma ser_entries_fit (f : json -> ser_res) obj a : ser_entries f obj = DOk a -> (length obj <= length a)%nat.
+  Proof.
+    revert a. induction obj as [|[k j] r IH]; intros a H; cbn [ser_entries] in H; [injection H as <-; cbn; lia|].
+    destruct (f j) as [x| | |]; try discriminate H. cbn [dbind] in H.
+    destruct (ser_entries f r) as [b| | |]; try discriminate H. cbn [dbind] in H. injection H as <-.
+    specialize (IH b eq_refl). rewrite !app_length. cbn [length].
+    assert (1 <= length (len_prefix (length k)))%nat.
+    { unfold len_prefix, uvar, venc_with.
+      change (Z.to_nat (Dyn.varint_max (w_ty dyn_writer_usize))) with 10%nat. cbn [venc_loop].
+      destruct (cmp_eval _ _ _); cbn [length]; lia. }
+    lia.
+  Qed.
+
   Theorem reenc : forall s, schema_wf s = true -> reenc_scope s = true -> reenc_at s.
   Proof.
     induction s as [p|t IH|t IH|ts IH|k v IHk IHv|n k fs IH|n vs IH] using schema_ind'; intros Hwf Hsc.
@@ -498,7 +512,7 @@ Section Reenc.
     - cbn [schema_wf reenc_scope] in Hwf, Hsc. apply andb_prop in Hwf as [_ Hwv]. specialize (IHv Hwv Hsc).
       intros j bs rest Hw Hs Hr. unfold SER in Hs. cbn [dyn_ser] in Hs. rewrite ser_no_panic_arm in Hs. fold SER in Hs.
       destruct k as [[]| | | | | |]; try discriminate Hs.
-      destruct j as [| | | | | |obj]; try discriminate Hs. cbn [json_wf] in Hw. apply andb_prop in Hw as [Hw Hlen]. apply N.leb_le in Hlen.
+      destruct j as [| | | | | |obj]; try discriminate Hs. cbn [json_wf] in Hw. apply andb_prop in Hw as [Hw Hlen]. apply N.ltb_lt in Hlen.
       apply andb_prop in Hw as [Hw Hasc].
       destruct (ser_entries (SER v) obj) as [a| | |] eqn:Ea; try discriminate Hs. cbn [dbind] in Hs. injection Hs as <-.
       destruct (entries_reenc v IHv obj a rest Hw Ea Hr) as (Ha & obj' & Hk & Hde & Hse).
@@ -508,7 +522,8 @@ Section Reenc.
       { rewrite fold_insert_asc; [reflexivity|rewrite Hk; exact Hasc|intros e x []]. }
       split; [apply bytes_ok_app; split; assumption|]. exists (JObj obj'). split.
       + unfold DE. cbn [dyn_de]. rewrite de_no_panic_arm. fold DE. rewrite <- app_assoc, Hdu. cbn [dbind].
-        rewrite Hde; [rewrite Hfold; reflexivity|]. rewrite <- (Nat2N.id (length obj)) at 1. apply loop_fuel_enough. left. exact Hlen.
+        rewrite Hde; [rewrite Hfold; reflexivity|]. rewrite <- (Nat2N.id (length obj)) at 1. apply loop_fuel_enough. right.
+        pose proof (ser_entries_fit (SER v) obj a Ea). rewrite app_length. lia.
       + unfold SER. cbn [dyn_ser]. rewrite ser_no_panic_arm. fold SER. rewrite Hse. cbn [dbind].
         rewrite <- (map_length fst obj'), Hk, map_length. reflexivity.
     - cbn [schema_wf reenc_scope] in Hwf, Hsc. apply andb_prop in Hwf as [_ Hwf]. unfold body_ok in Hsc. apply andb_prop in Hsc as [Hsc Hd].
